@@ -21,9 +21,18 @@ the monitors below on the progress-callback stream of the *real* solver (indepen
                  x̂+q / x̂; rejected step = plain forward-backward step (descent as above); accepted step:
                  φ(k+1) ≤ φ(k) − (1−γL)/(2γ)‖p‖² + qub-margin + TR-margin whenever the tested candidate is
                  the reported one (step size unchanged, or compute_ratio_using_new_stepsize); Δ ≥ min_radius
+  every solver   (loopmon.consistency, exact, from the problem data alone) the reported ψ(x), ∇ψ(x), x̂ = prox_γ(x − γ∇ψ(x)),
+                 p = x̂ − x, ‖p‖², ψ(x̂), ŷ(x̂), ∇ψ(x̂), φγ = ψ + h(x̂) + ‖p‖²/(2γ) + ∇ψᵀp and ε (documented criterion) of EVERY
+                 callback are what they claim to be at the reported (x, γ) — tolerances stated in checks/loopmon.py
+  τ = 0 steps    b.x = a.x̂ and ψ_b = ψ̂_a bitwise (PANOC / ZeroFPR / PANOC-OCP); PANTR re-evaluates ψ(x̂) with another
+                 routine: the two values may differ by at most 2⁻⁴⁰·M(ψ)
 Excluded with a counted reason (hypotheses of the theorems): force_linesearch, iterates rewritten by
-recompute_last_prox_step_after_stepsize_change, non-finite data, ratio_threshold_acceptable < 0,
-ratio_approx_fbe_quadratic_model with Lγ_factor ≥ 1.
+recompute_last_prox_step_after_stepsize_change, ratio_threshold_acceptable < 0, ratio_approx_fbe_quadratic_model
+with Lγ_factor ≥ 1; the initial iterate of a solve whose initial step-size loop a visible stop request cut short
+(`InitInterrupted ∧ k = 0`: t₀ ≤ initialisation ticks, one callback); PANTR: the final iterate when the request was
+visible at the final head (t₀ ≤ T − 1).  Non-finite data is counted per cause: `nan_injected`, `overflow_range`
+(iterate / cost beyond 1e60) — any other non-finite field is a violation.  A NaN ψ(x̂) passes the library's
+`>`-tests: reported under the open finding C05-nan-cost-passes-acceptance-tests.
 """
 import math
 import os
@@ -104,6 +113,7 @@ def gen_run(rng, solver='panoc', **over):
     r = rng.random()
     if r < 0.05:
         op['Lmax'] = C.f2h(rng.choice([4.0, 64.0, 1024.0]))
+        S.fix_lipschitz_bounds(op, 'panoc')
     draw_margins(rng, op)
     if rng.random() < 0.2:
         near_convergence(rng, op)
@@ -168,6 +178,7 @@ def init_interrupted(r, cbs, k, flavor):
 
 
 KEY_NAN = 'C05-nan-cost-passes-acceptance-tests'
+TINY = Fr(2) ** -1040            # squares of subnormal-range entries are rounded absolutely, not relatively
 
 
 def nonfinite_cause(op, cb):
@@ -313,7 +324,7 @@ def monitor(op_line, out_line, st, flavor='panoc'):
                 nanf = nanf or nan_fact(op, cbs, k, 'and the iterate was accepted, the solve went on from it')
             continue
         if Fr(cb['pTp']) != 0 and abs(Fr(cb['pTp']) - sum(a * a for a in S.frv(cb['p']))) > \
-                8 * Fr(EPS) * Fr(cb['pTp']):
+                8 * Fr(EPS) * Fr(cb['pTp']) + TINY:
             return f'callback {k}: reported ‖p‖²={cb["pTp"]!r} is not the squared norm of the reported p'
         ok, lhs, rhs, slack = qub_holds(cb, P['qubtol'])
         if ok:
@@ -487,7 +498,7 @@ def monitor_pantr(op_line, out_line, st):
                 nanf = nanf or nan_fact(op, cbs, k, 'and the iterate was accepted, the solve went on from it')
         else:
             if Fr(cb['pTp']) != 0 and abs(Fr(cb['pTp']) - sum(a * a for a in S.frv(cb['p']))) > \
-                    8 * Fr(EPS) * Fr(cb['pTp']):
+                    8 * Fr(EPS) * Fr(cb['pTp']) + TINY:
                 return f'callback {k}: reported ‖p‖²={cb["pTp"]!r} is not the squared norm of the reported p'
             ok, lhs, rhs, slack = qub_holds(cb, P['qubtol'])
             if ok:
@@ -626,7 +637,11 @@ def adapters():
 def solver_monitor(solver, o, h, st):
     if h.startswith('S exception'):
         return None                      # multiloop reports an exception outside the declared throwing classes
-    m = monitor_pantr(o, h, st) if solver.name == 'pantr' else monitor(o, h, st, flavor=solver.name)
+    try:
+        m = monitor_pantr(o, h, st) if solver.name == 'pantr' else monitor(o, h, st, flavor=solver.name)
+    except OverflowError:
+        bump('run_skipped_exact_values_beyond_binary64')     # diverging run: exact rationals do not fit a double
+        m = None
     # φγ, ψ, ∇ψ, p, x̂, γ of every reported iterate are what they claim to be (exact, from the problem data)
     return m or LM.iterate_consistency(solver.name, o, h, 'C05', bump)
 
